@@ -107,18 +107,28 @@ def write_order(ctx):
                op, 'the build file content is not written inside the with '
                'block')
         # (c) ordered persistent writes before the build file
-        hooks = reg.hooks[b]['pre'] + reg.hooks[b]['post'] + sorted(
-            set(reg.handlers[b].values()), key=lambda f: f.fq)
+        hooks = [(h, 'pre') for h in reg.hooks[b]['pre']] + \
+            [(h, 'post') for h in reg.hooks[b]['post']] + \
+            [(h, 'handler') for h in sorted(
+                set(reg.handlers[b].values()), key=lambda f: f.fq)]
         ctx.stat(b + '_hooks', [h.fq for h in reg.hooks[b]['pre'] +
                                 reg.hooks[b]['post']])
         cache_load = repo.method(FIND + 'FindCacheFile', 'load')
         cache_save = repo.method(FIND + 'FindCacheFile', 'save')
         n_eff = 0
-        for h in hooks:
+        for h, phase in hooks:
             for fq, kind, path in _write_effects(repo, cg, h):
                 n_eff += 1
                 is_cache = fq == cache_save.fq
-                key = '{}|before-build-file|{}|{}'.format(b, h.fq, fq)
+                # post-rules hooks run after all rule handlers (an exception
+                # in rule emission has already aborted the run by then);
+                # pre-rules hooks and handlers run before/while rules are
+                # emitted, which is strictly worse for a file the skip
+                # decision trusts -- hence the phase is part of the key
+                key = '{}|before-build-file|{}|{}'.format(b, h.fq, fq) if \
+                    phase == 'post' else \
+                    '{}|before-rule-emission({})|{}|{}'.format(
+                        b, phase, h.fq, fq)
                 if is_cache:
                     ctx.ob(R, key, False, h.node,
                            '{} saves the find cache (read by the lazy-skip '
